@@ -7,6 +7,13 @@ namespace XotModel
 namespace Fws
 open HTree
 
+/-- With consolidation never switched off the invariant gives strict validity. -/
+theorem strict_of_inv {f : Forest} (hinv : f.Inv) (hoff : f.everOff = false) :
+    validList true f.roots = true := by
+  have := hinv.valid
+  rw [hoff] at this
+  exact this
+
 /-! ### liveness -/
 
 theorem get?_isSome_iff {f : Forest} {h : Nat} : (∃ q, f.get? h = some q) ↔ h ∈ f.allHandles :=
@@ -111,6 +118,36 @@ theorem strip_handles {f : Forest} (nd : f.allHandles.Nodup) (hv : validList tru
     have := o'.sublist.subset (handle_mem_handles _)
     rw [pruneText_handle, hh] at this
     exact this
+
+/-- A live handle is gone after the call iff it is in the specification's set. -/
+theorem strip_removed_iff {f : Forest} (nd : f.allHandles.Nodup) (hv : validList true f.roots = true)
+    {t : HTree} {anc : List HTree} (o : Occurs f t anc) {h : Nat} (hl : f.isLive h = true) :
+    (f.removeInsignificantWhitespace t.handle).isLive h = false ↔ h ∈ specTopRemoved anc t := by
+  have hh := strip_handles nd hv o
+  generalize f.removeInsignificantWhitespace t.handle = g at hh ⊢
+  have hlf : h ∈ f.allHandles := by
+    unfold Forest.isLive at hl
+    cases hq : f.get? h with
+    | none => rw [hq] at hl; cases hl
+    | some q => exact get?_isSome_iff.1 ⟨q, hq⟩
+  have hiff : g.isLive h = true ↔ h ∈ g.allHandles := by
+    unfold Forest.isLive
+    rw [← get?_isSome_iff]
+    cases g.get? h <;> simp
+  constructor
+  · intro hg
+    have : h ∉ g.allHandles := fun hm => by rw [hiff.2 hm] at hg; cases hg
+    rw [hh, List.mem_filter] at this
+    cases hc : (specTopRemoved anc t).contains h with
+    | true => exact List.contains_iff_mem.1 hc
+    | false => exact absurd ⟨hlf, by rw [hc]; rfl⟩ this
+  · intro hm
+    rw [Bool.eq_false_iff]
+    intro hg
+    have := hiff.1 hg
+    rw [hh, List.mem_filter] at this
+    simp only [Bool.not_eq_true', List.contains_eq_mem, decide_eq_false_iff_not] at this
+    exact this.2 hm
 
 /-- Values and parents of everything outside the specification's set are untouched. -/
 theorem strip_frame {f : Forest} (nd : f.allHandles.Nodup) (hv : validList true f.roots = true)
